@@ -111,8 +111,11 @@ Definition check_count (p : path) (k : vkind) (count : Z) (lim : option Z) (abs 
       else []
   end.
 
-Definition effective_depth (l : limits) (d : Z) : Z :=
-  if l_relative l then Z.max 0 (d - l_base_depth l) else d.
+(* relative depth (fixes/D47): both figures are counted from the PROJECT root -- the components of the
+   normalised directory path minus the leading literal components of the scope -- so the answer does not
+   depend on where the scan root lies; the plain depth is stats.depth, the distance from the scan root *)
+Definition effective_depth (l : limits) (p : path) (d : Z) : Z :=
+  if l_relative l then Z.max 0 (norm_len p - l_base_depth l) else d.
 
 Definition check_depth (p : path) (l : limits) (d : Z) : list violation :=
   match l_max_depth l with
@@ -121,7 +124,7 @@ Definition check_depth (p : path) (l : limits) (d : Z) : list violation :=
       if limit =? UNLIMITED then []
       else
         let w := warn_point limit (match l_warn_threshold l with Some t => t | None => DEFAULT_WARN_BITS end) in
-        let ed := effective_depth l d in
+        let ed := effective_depth l p d in
         if limit <? ed then [lv p VMaxDepth ed limit false]
         else if w <? ed then [lv p VMaxDepth ed limit true]
         else []
